@@ -480,6 +480,49 @@ func c09Gen(tier string, rng *rand.Rand, emit func(interface{})) {
 	} {
 		emit(c)
 	}
+	// (d2) where the weighted Mean / GeoMean have no value (repairs 7747581, 93a8d25): a zero resp. negative VALUE in
+	//      every position with weight 0 / 1 / 2 (the other weights 1, resp. mixed 2 0 1 ...), as given and reversed
+	//      (the NaN-ness must not depend on the order), next to the repeated unweighted sample; all-zero weight
+	//      vectors of several lengths, also Sorted
+	for n := 1; n <= 4; n++ {
+		for k := 0; k < n; k++ {
+			for _, bad := range []float64{0, -2} {
+				for wk := 0; wk <= 2; wk++ {
+					for variant := 0; variant < 2; variant++ {
+						xs := append([]float64{}, base[:n]...)
+						xs[k] = bad
+						ws := make([]float64, n)
+						for i := range ws {
+							ws[i] = 1
+							if variant == 1 {
+								ws[i] = float64((i + 2) % 3)
+							}
+						}
+						ws[k] = float64(wk)
+						rx, rw := make([]float64, n), make([]float64, n)
+						for i := range xs {
+							rx[n-1-i], rw[n-1-i] = xs[i], ws[i]
+						}
+						emit(c09Case{Kind: 0, Xs: toF64s(xs), Ws: toF64s(ws), HasW: true})
+						emit(c09Case{Kind: 0, Xs: toF64s(rx), Ws: toF64s(rw), HasW: true})
+						emit(c09Case{Kind: 0, Xs: toF64s(c09Repeat(xs, ws))})
+					}
+				}
+			}
+		}
+	}
+	for _, n := range []int{1, 2, 3, 5, 8, 17} {
+		xs := c09Values(rng, n)
+		ws := make([]float64, n)
+		emit(c09Case{Kind: 0, Xs: toF64s(xs), Ws: toF64s(ws), HasW: true})
+		ax, aw := c09SortedPairs(xs, ws)
+		emit(c09Case{Kind: 0, Xs: toF64s(ax), Ws: toF64s(aw), HasW: true, Sorted: true})
+		px := c09Positive(rng, n)
+		emit(c09Case{Kind: 0, Xs: toF64s(px), Ws: toF64s(ws), HasW: true})
+		// ... and in a history: queries before and after Sort and Copy, then a direct write
+		emit(c09Case{Kind: 1, Xs: toF64s(xs), Ws: toF64s(ws), HasW: true, Ops: []c09Op{
+			{T: 3, I: 0}, {T: 0, I: 0}, {T: 3, I: 0}, {T: 1, I: 0}, {T: 3, I: 1}, {T: 2, I: 1, J: 0, V: -1}, {T: 3, I: 1}, {T: 3, I: 0}}})
+	}
 	// (e) histories: Sort / Copy / Poke / Query interleaved, up to 30 operations
 	nH := 200
 	if thorough {
